@@ -51,6 +51,7 @@ type Exchange struct {
 	Sent      time.Duration // RoundTrip entered
 	At        time.Duration // delivered at the host
 	RespAt    time.Duration // response handed to the client
+	BodyErrAt time.Duration // the client's read hit the injected truncation (0: not yet / never)
 	Task      string
 	Method    string
 	Scheme    string
@@ -348,7 +349,8 @@ func (n *Net) RoundTrip(req *http.Request) (*http.Response, error) {
 		case F429RetryAfter:
 			r.Header.Set("Retry-After", strconv.Itoa(f.RetrySec))
 		case F401:
-			r.Header.Set("WWW-Authenticate", `Basic realm="injected"`)
+			// a fresh realm every time: an auth handler with credentials accepts each as a new challenge
+			r.Header.Set("WWW-Authenticate", `Basic realm="injected-`+strconv.Itoa(x.Seq)+`"`)
 		}
 		r.Body = []byte(`{"errors":[{"code":"INJECTED"}]}`)
 	} else {
@@ -481,6 +483,9 @@ func (b *respBody) Read(p []byte) (int, error) {
 	}
 	if b.pos >= limit {
 		if b.truncAt >= 0 || b.short {
+			if b.x.BodyErrAt == 0 {
+				b.x.BodyErrAt = simrt.Cur().Elapsed()
+			}
 			return 0, io.ErrUnexpectedEOF
 		}
 		return 0, io.EOF
